@@ -18,3 +18,10 @@ Proof. exact code_inj. Qed.
 (* non-vacuity: a packet that one decoder does accept *)
 Example C12_nonvacuous : decode KAck (mkP false 7 [0; 3; 1; 2]) = Val (Ack 7 258) /\ decode KGatewayDiscover (mkP false 7 [0; 3; 1; 2]) = Fail CWrongEventType.
 Proof. split; reflexivity. Qed.
+
+(* the extracted checker accepts the model's sixteen flags: for every packet (at most one acceptance) and for every well-formed event (only its own kind accepts) *)
+Require Import RP.Glue.Wire RP.Glue.StreamEV RP.Glue.StreamDEC RP.Lemmas.GlueLemmas.
+Theorem C12_checker_accepts_model_packets : forall p, ok_C12 (0 :: show_packet p) (run_AMB (0 :: show_packet p)) = [].
+Proof. exact ok_C12_accepts_model_packets. Qed.
+Theorem C12_checker_accepts_model_events : forall e, wf_event e = true -> ok_C12 (1 :: event_fields e) (run_AMB (1 :: event_fields e)) = [].
+Proof. exact ok_C12_accepts_model_events. Qed.
